@@ -10,6 +10,10 @@ BUILT = {
          "Exhaustive TLC model check of the buffer/reader design (all streams over the bytes that matter up to the bound, all segmentations, all interleavings of pushes and reads, all read-kind sequences) against a reference defined on the concatenated bytes only; bound to the code in both directions: every recorded real execution (exhaustive short streams x all segmentations, random long ones, concurrent pusher, timer scenarios) must be a behaviour of the spec with all invariants true at every step, and every exported spec behaviour must be reproduced by the real buffer.",
          "Trusts TLC, the harness recorder (events numbered under one mutex; pushes logged atomically with addBuffer) and the parked-reader detection via runtime.Stack; bounds: model streams <= 4 (quick) / 5 (thorough) bytes, implementation streams <= 4/5 exhaustive and <= 512 random.",
          "2/C03", "wire"),
+ "C01": ("TLA+ spec Transfer.tla (message-level protocol model) checked exhaustively by TLC incl. liveness; trace validation of recorded real end-to-end transfers against TransferObs.tla (observables) and TransferTrace.tla (every protocol line)",
+         "Exhaustive TLC model check of the transfer protocol design (protocols 1..4, both directions, refusal, several file sets, pipelined window) for Fidelity, NoSilentCorruption, NoFalseSuccess, CleanRunSucceeds and Termination; bound to the code by validating hundreds (quick) to thousands (thorough) of real fault-free transfers between the real client path and the real trz/tsz role bodies over a seeded re-chunking wire across the configuration matrix: Transfer's own property formulas are evaluated on the observed outcome, and every protocol line written must be a send the spec allows in that state with the logged value.",
+         "Trusts TLC, the harness wire/parser/recorder and SHA-256; in-process roles (the process-level binaries, tunnel, fork and relay hops are covered under C14/C17 or listed as not covered in DESIGN.md); model bounds: <=3 entries, <=3 units per file, window 2.",
+         "2/C01", "transfer"),
 }
 checks = []
 for p in props:
